@@ -23,7 +23,7 @@ DIAGRAMS = ["pithist", "obsfcst", "timeseries", "meteo", "qq", "autocorr", "auto
 AXES = [None, "time", "leadtime", "year", "month", "week", "day", "timeofday", "dayofyear", "monthofyear",
         "dayofmonth", "location", "elev", "lat", "lon", "threshold", "leadtimeday", "no", "obs", "fcst"]
 TYPES = ["plot", "text", "csv", "map", "rank", "maprank", "impact", "mapimpact"]
-VARIANTS = ["none", "r1", "r3", "q2", "r1q1", "b_within", "agg_median", "b_below_eq", "r1_within", "q1", "agg_min", "agg_range", "agg_iqr", "agg_q", "agg_count", "sub_tod", "sub_d", "sub_o"]
+VARIANTS = ["none", "r1", "r3", "q2", "r1q1", "b_within", "agg_median", "b_below_eq", "r1_within", "q1", "agg_min", "agg_range", "agg_iqr", "agg_q", "agg_count", "sub_tod", "sub_d", "sub_o", "r3_aggmax", "r3_aggq"]
 SHAPES = ["prob2", "single", "allmiss", "det1", "nc2c"]
 
 
@@ -92,7 +92,8 @@ def variant_args(v):
             "r1q1": ["-r", "5", "-q", "0.5"], "b_within": ["-r", "0,5,10", "-b", "within"],
             "agg_median": ["-agg", "median"], "b_below_eq": ["-r", "5", "-b", "below="],
             "r1_within": ["-r", "5", "-b", "within="], "q1": ["-q", "0.5"], "agg_min": ["-agg", "min"],
-            "agg_range": ["-agg", "range"], "agg_iqr": ["-agg", "iqr"], "agg_q": ["-agg", "0.9"], "agg_count": ["-agg", "count"]}[v]
+            "agg_range": ["-agg", "range"], "agg_iqr": ["-agg", "iqr"], "agg_q": ["-agg", "0.9"], "agg_count": ["-agg", "count"], "r3_aggmax": ["-r", "-100,0,5,1000", "-agg", "max", "-b", "within"],
+            "r3_aggq": ["-r", "-100,0,5,1000", "-agg", "0.3"]}[v]
 
 
 def all_combos(metrics, tier):
@@ -120,6 +121,10 @@ def all_combos(metrics, tier):
             for v in VARIANTS[3:]:
                 combos.append((m, None, "plot", v, "prob2"))
                 combos.append((m, "no", "text", v, "prob2"))
+            # conditional axes with intervals that hold no value, under order-statistic aggregators
+            for v in ("r3_aggmax", "r3_aggq"):
+                for ax in ("obs", "fcst", "threshold"):
+                    combos.append((m, ax, "csv", v, "prob2"))
             # subsetting options combined with derived time axes
             for v in ("sub_tod", "sub_d", "sub_o"):
                 for ax in ("month", "week", "timeofday", "day", "year", "leadtimeday"):
